@@ -27,6 +27,9 @@ import (
 // a small bzip2 archive (800 bytes of shell script)
 const c51ArchiveHex = "425a68393141592653595c217e2d00004fd98000106801c0203a619ca0200090281a686464c40a5520323d41a6d4ec4c1324c13e9324d89dc9826a4f04dc982609d49c89cc9e89d09b93726c4fc4ec4e09f0992644d44d89c134264982609b13427927f1772453850905c217e2d0"
 
+// a second valid bzip2 archive with other content (775 bytes): "the attacker's binary"
+const c51EvilHex = "425a683931415926535989914a3500004ad18000106800ba699c20200070534c8c4c4c40a552064d30ca662de2ea2ee2d62f716b1771662d22fb16f16917517116b1622cc588b08b48b28b116d16d16f1711788bb8bf8bb9229c284844c8a51a80"
+
 var (
 	c51Once    sync.Once
 	c51Signer  *openpgp.Entity
@@ -62,6 +65,9 @@ func c51Sign(e *openpgp.Entity, data []byte) []byte {
 }
 
 type c51Transport struct {
+	// later, if set for a URL, is served from the second request for that URL on
+	later map[string][]byte
+	hits  map[string]int
 	files  map[string][]byte
 	status map[string]int
 	delay  map[string]time.Duration
@@ -111,6 +117,10 @@ func (t *c51Transport) RoundTrip(req *http.Request) (*http.Response, error) {
 	if !ok {
 		st = http.StatusNotFound
 	}
+	t.hits[u]++
+	if l, ok := t.later[u]; ok && t.hits[u] > 1 {
+		data = l
+	}
 	cut := -1
 	if c, ok := t.cut[u]; ok {
 		cut = c
@@ -152,10 +162,30 @@ func TestVerifC51(t *testing.T) {
 		var desc []string
 		nTamper := []int{0, 1, 1, 1, 2}[tp.Choose(5)]
 		sigKind := "valid"
-		tr := &c51Transport{files: map[string][]byte{}, status: map[string]int{}, delay: map[string]time.Duration{}, cut: map[string]int{}}
+		tr := &c51Transport{files: map[string][]byte{}, status: map[string]int{}, delay: map[string]time.Duration{}, cut: map[string]int{}, later: map[string][]byte{}, hits: map[string]int{}}
+		evil, _ := hex.DecodeString(c51EvilHex)
+		var laterSums, laterArchive []byte // what the server switches to from the second request on
 		assets := []Asset{{ID: 1, Name: "SHA256SUMS", URL: base + "sums"}, {ID: 2, Name: "SHA256SUMS.asc", URL: base + "sig"}, {ID: 3, Name: otherName, URL: base + "other"}, {ID: 4, Name: name, URL: base + "archive"}}
 		for i := 0; i < nTamper; i++ {
-			switch tp.Choose(14) {
+			switch tp.Choose(16) {
+			case 14:
+				// the server changes its answers between requests: first a tampered archive, from the second
+				// request on the attacker's archive and a checksum file (unsigned) that lists its hash
+				if len(servedArchive) == 0 {
+					continue
+				}
+				servedArchive[len(servedArchive)/2] ^= 0x10
+				laterArchive = evil
+				laterSums = []byte(sumLine(otherArchive, otherName) + sumLine(evil, name))
+				desc = append(desc, "answers change on the second request: forged checksum file and attacker archive")
+			case 15:
+				// only the archive changes on the second request (the signed checksum file stays)
+				if len(servedArchive) == 0 {
+					continue
+				}
+				servedArchive[len(servedArchive)/2] ^= 0x10
+				laterArchive = evil
+				desc = append(desc, "archive replaced by the attacker's on the second request")
 			case 0:
 				if len(servedArchive) == 0 {
 					continue
@@ -232,6 +262,12 @@ func TestVerifC51(t *testing.T) {
 		tr.files[base+"sig"] = sig
 		tr.files[base+"other"] = otherArchive
 		tr.files[base+"archive"] = servedArchive
+		if laterSums != nil {
+			tr.later[base+"sums"] = laterSums
+		}
+		if laterArchive != nil {
+			tr.later[base+"archive"] = laterArchive
+		}
 		for _, d := range desc {
 			if i := strings.Index(d, " while downloading"); i >= 0 {
 				d = d[:i]
